@@ -224,6 +224,7 @@ func (tr *Transaction) Commit() error {
 				}
 			} else {
 				// Success. Set db.seq.
+				verifYield(6)
 				tr.db.setSeq(tr.seq)
 				break
 			}
